@@ -476,9 +476,14 @@ func handleHINCRBY(params internal.HandlerFuncParams) ([]byte, error) {
 		}
 	}
 
-	hash, ok := params.GetValues(params.Context, []string{key})[key].(map[string]interface{})
+	stored, ok := params.GetValues(params.Context, []string{key})[key].(map[string]interface{})
 	if !ok {
 		return nil, fmt.Errorf("value at %s is not a hash", key)
+	}
+	// The stored hash is not touched before the write has been accepted (it can be refused at the memory limit).
+	hash := make(map[string]interface{}, len(stored)+1)
+	for f, v := range stored {
+		hash[f] = v
 	}
 
 	if hash[field] == nil {
@@ -595,9 +600,14 @@ func handleHDEL(params internal.HandlerFuncParams) ([]byte, error) {
 		return []byte(":0\r\n"), nil
 	}
 
-	hash, ok := params.GetValues(params.Context, []string{key})[key].(map[string]interface{})
+	stored, ok := params.GetValues(params.Context, []string{key})[key].(map[string]interface{})
 	if !ok {
 		return nil, fmt.Errorf("value at %s is not a hash", key)
+	}
+	// The stored hash is not touched before the write has been accepted (it can be refused at the memory limit).
+	hash := make(map[string]interface{}, len(stored))
+	for f, v := range stored {
+		hash[f] = v
 	}
 
 	count := 0
